@@ -35,6 +35,12 @@ where
         Pin::new(&mut self.0).poll_next(cx)
     }
 
+    /// Keys of the streams that have ended since the last call (what the sockets use to
+    /// release a peer that closed its connection).
+    pub fn take_closed(&self) -> Vec<K> {
+        self.0.take_closed().into_iter().map(|(k, _)| k).collect()
+    }
+
     /// The handle a socket backend holds: lets another party insert and remove
     /// streams while `poll_next` is in progress.
     pub fn handle(&self) -> FairQueueHandle<S, K> {
